@@ -331,9 +331,11 @@ impl<SVC: Service> CloudServer<SVC> {
         // changed "latest" yet (parent equal to latest), or may have added further versions
         // since "latest" was read above (parent unknown to this chain).
         let ancestors: HashSet<Uuid> = rev_chain.values().copied().collect();
+        let mut dead_versions = HashSet::new();
         for (c, p, _) in versions {
             if rev_chain.get(&c) != Some(&p) && ancestors.contains(&p) {
                 self.service.del(&Self::version_name(&p, &c)).await?;
+                dead_versions.insert(c);
             }
         }
 
@@ -371,13 +373,18 @@ impl<SVC: Service> CloudServer<SVC> {
             }
         }
 
-        // If there's a latest snapshot, delete all other snapshots.
+        // If there's a latest snapshot, delete the snapshots of the versions before it on the
+        // chain and of the versions just deleted. A snapshot of any other version is left alone:
+        // it may be for a version that was added after "latest" was read above, and so be newer
+        // than `latest_snapshot`.
         let Some(latest_snapshot) = latest_snapshot else {
             // If there's no snapshot, no further cleanup is possible.
             return Ok(());
         };
         for version in snapshots {
-            if version != latest_snapshot {
+            if version != latest_snapshot
+                && (ancestors.contains(&version) || dead_versions.contains(&version))
+            {
                 self.service.del(&Self::snapshot_name(&version)).await?;
             }
         }
